@@ -42,6 +42,12 @@ Record session := mkSession {
   s_log : list (bool * str)     (* diagnostics, newest first; flag = delivered to a callback *)
 }.
 
+(* what the inline layer may read *)
+Record ienv := mkIenv {
+  en_mode : Z; en_repl : str; en_quotes : list qdef; en_repls : list rdef; en_macros : list (str * str) }.
+Definition ienv_of (s : session) : ienv :=
+  mkIenv (s_mode s) (s_repl s) (s_quotes s) (s_repls s) (s_macros s).
+
 (* The interpreter state before the first render call. *)
 Definition S0 : session :=
   mkSession (-1)%Z [] false [] [] [] [] [] [] [] [] expand_none [] [] [].
@@ -119,6 +125,7 @@ Definition bind {A B} (m : M A) (f : A -> M B) : M B :=
            | Fuel => Fuel
            end.
 Definition get : M session := fun s => Ok (s, s).
+Definition gets {A} (f : session -> A) : M A := fun s => Ok (f s, s).
 Definition modify (f : session -> session) : M unit := fun s => Ok (tt, f s).
 Definition raise {A} (e : exn) : M A := fun _ => Raise e.
 Definition out_of_fuel {A} : M A := fun _ => Fuel.
@@ -133,9 +140,9 @@ Fixpoint log_msgs (l : list str) : M unit :=
   | m :: t => bind (log_msg m) (fun _ => log_msgs t)
   end.
 
-(* run an inline computation (which may only read the session) *)
-Definition lift {A} (f : session -> I A) : M A :=
-  fun s => match f s with
+(* run an inline computation, which may only read the inline environment of the session *)
+Definition lift {A} (f : ienv -> I A) : M A :=
+  fun s => match f (ienv_of s) with
            | Ok (a, msgs) => bind (log_msgs msgs) (fun _ => ret a) s
            | Raise e => Raise e
            | Fuel => Fuel
